@@ -742,10 +742,8 @@ impl CoreApi for Enforcer {
     async fn load_filtered_policy<'a>(&mut self, f: Filter<'a>) -> Result<()> {
         let backup = self.model.get_model().clone();
         self.model.clear_policy();
-        if let Err(e) = self
-            .adapter
-            .load_filtered_policy(&mut *self.model, f)
-            .await
+        if let Err(e) =
+            self.adapter.load_filtered_policy(&mut *self.model, f).await
         {
             *self.model.get_mut_model() = backup;
             return Err(e);
